@@ -1119,7 +1119,7 @@ class BioBasket(collections.UserList):
         """
         Write sequences to a string of specified format, see `~.main.write()`
         """
-        return self.write(None, fmt)
+        return self.write(None, fmt, **kw)
 
     def tostr(self, h=19, w=80, wid=19, wlen=4, showgc=True,
               add_hint=False, raw=False, add_header=True):
